@@ -18,6 +18,9 @@ def pieces(node):
     """[str | ('arg', tree, spec, how)] for a format!-built value; raises FmtError if not decodable"""
     a = find_arguments(node)
     if a is None:
+        c = _concat_pieces(node)
+        if c is not None:
+            return c
         raise FmtError("no fmt::Arguments construction below %s" % node.show()[:120])
     m = method_name(a.a)
     if m == "Arguments::from_str":
@@ -50,6 +53,35 @@ def pieces(node):
                 raise FmtError("fmt placeholder index out of range")
             out.append(("arg", trees[idx][0], spec, trees[idx][1]))
     return out
+
+
+def _concat_pieces(node):
+    """`[a, b, c].concat()` / `[a, b].join("")` of string slices: the same pieces as the equivalent format!"""
+    for n in node.walk():
+        if n.kind == "call" and method_name(n.a).split("::")[-1] in ("concat", "join") and n.kids:
+            last = method_name(n.a).split("::")[-1]
+            if last == "join":
+                sep = peel(n.kids[1]) if len(n.kids) > 1 else None
+                if sep is None or sep.kind != "const" or sep.a.as_str() != "":
+                    return None
+            arr = None
+            for k in n.kids[0].walk():
+                if k.kind == "agg" and k.a[0] == "array":
+                    arr = k
+                    break
+            if arr is None:
+                return None
+            out = []
+            for el in arr.kids:
+                e = peel(el)
+                if e.kind == "const" and e.a.as_str() is not None:
+                    out.append(e.a.as_str())
+                else:
+                    out.append(("arg", e, None, "display"))
+            return out
+        if n.kind == "call" and method_name(n.a) not in ("Deref::deref", "String::as_str", "AsRef::as_ref", "Borrow::borrow", "must_use", "hint::must_use"):
+            return None
+    return None
 
 
 def literal_text(ps, hole="\x00"):
